@@ -273,6 +273,10 @@ var knownShapes = []knownShape{
 		func(c progCase) bool {
 			return c.Kind == "func" && c.Name == "JSON_VALUE" && argIn(c, 1, "empty", "space", "col_v", "col_s", "col_g")
 		}},
+	{"pad_empty_padstr_fatal", "LPAD/RPAD(str, len, ''): the pad string's length 0 divides the missing length, int(Ceil(+Inf)) is negative and strings.Repeat panics (lib/query/function.go execStringsPadding)",
+		func(c progCase) bool {
+			return c.Kind == "func" && (c.Name == "LPAD" || c.Name == "RPAD") && argIn(c, 2, "empty", "col_v", "col_s", "col_g")
+		}},
 }
 
 func knownShapeOf(c progCase) *knownShape {
